@@ -77,7 +77,7 @@ def _cop(o, td):
     if k == "join":
         return "(CJoin %s %s)" % (_cop(o["a"], td), _cop(o["b"], td))
     kind = {"bimap": 0, "getter": 1, "setter": 2}[k]
-    return "(CConv %d%%N %s %d%%N)" % (kind, _cop(o["x"], td), o["code"])
+    return "(CConv %d%%N %s %d%%N %s%%nat)" % (kind, _cop(o["x"], td), o["code"], oc.cty(td[o["B"]]))
 
 
 def _path(p):
@@ -102,8 +102,8 @@ def _req(c):
             if i is None:
                 items.append("None")
             else:
-                items.append("(Some (mkI %s %s %s %s %s%%nat))" % (_cop(i["sa"], td), _path(i["sa"]["fpath"]), _cop(i["ta"], td),
-                                                                 _path(i["ta"]["fpath"]), oc.cty(td[i["sa"]["A"]])))
+                items.append("(Some (mkI %s %s %s %s))" % (_cop(i["sa"], td), _path(i["sa"]["fpath"]), _cop(i["ta"], td),
+                                                          _path(i["ta"]["fpath"])))
         return "(RMorph [%s])" % "; ".join(items)
     if cb == "mapkey":
         return "(RMapKey [%s] %s %s)" % ("; ".join("(%s, %s)" % (oc.cstr(k), vlib.zlit(v)) for k, v in r["init"]),
